@@ -34,11 +34,61 @@ def mk_node(B, cls, children=None, **kw):
     layout); its children list is then replaced by an arbitrary symbolic list"""
     ctx = B.ctx
     n_before = len(ctx.writes)
+    pv = kw.pop("parsed_version", None)
     ref = ctx.instantiate(cls, [], kw)
     if children is not None:
         ctx.setattr(ref, "children", children)
+    if pv is not None:
+        ctx.setattr(ref, "parsed_version", pv)       # what _parse does after construction
     del ctx.writes[n_before:]
     return ref
+
+
+_FIELD_READ = {}
+
+
+def field_is_read(name, allowed=("btc_hd_wallet.base_wallet.BaseWallet.from_extended_key",)):
+    """does any repository function READ attribute `name` (or mention it as a string outside __slots__),
+    apart from the `allowed` functions?  Decided on the current source of every run.  A field that is never
+    read cannot influence any result, so the input builders need not split on it."""
+    key = (name, allowed)
+    if key in _FIELD_READ:
+        return _FIELD_READ[key]
+    import ast as _ast, os as _os, glob as _glob
+    root = _os.path.join(_os.environ.get("VERIF_REPO", "/repo"), "btc_hd_wallet")
+    hit = False
+    for fn in sorted(_glob.glob(_os.path.join(root, "*.py"))):
+        mod = "btc_hd_wallet." + _os.path.basename(fn)[:-3]
+        tree = _ast.parse(open(fn).read())
+
+        def visit(node, qn):
+            nonlocal hit
+            for ch in _ast.iter_child_nodes(node):
+                q = qn
+                if isinstance(ch, (_ast.FunctionDef, _ast.ClassDef, _ast.AsyncFunctionDef)):
+                    q = qn + "." + ch.name
+                if isinstance(ch, _ast.Assign) and any(isinstance(t, _ast.Name) and t.id == "__slots__" for t in ch.targets):
+                    continue
+                if isinstance(ch, _ast.Attribute) and ch.attr == name and isinstance(ch.ctx, _ast.Load) and q not in allowed:
+                    hit = True
+                if isinstance(ch, _ast.Constant) and ch.value == name and q not in allowed:
+                    hit = True
+                if isinstance(ch, _ast.Call) and isinstance(ch.func, _ast.Name) and ch.func.id in ("getattr", "vars", "dir") and q not in allowed:
+                    hit = True          # reflective access: assume it may read anything
+                visit(ch, q)
+        visit(tree, mod)
+    _FIELD_READ[key] = hit
+    return hit
+
+
+def sym_parsed_version(B, tag):
+    """parsed_version of a node: None (built in code) or any 32-bit value (set by _parse).  Split only when the
+    current source reads the field somewhere (see field_is_read)."""
+    if not field_is_read("parsed_version"):
+        return None
+    if B.case(f"{tag}_parsed", 2):
+        return B.int(f"{tag}_parsedver", 0, 2 ** 32)
+    return None
 
 
 def sym_sec33(B, name):
@@ -94,8 +144,9 @@ def sym_prv_node(B, tag="self", with_parent=True, depth_hi=256):
         elif c == 2:
             ppf = B.bytes(f"{tag}_ppf", 4)
     children = B.list_sym(f"{tag}_children")
+    pv = sym_parsed_version(B, tag)
     ref = mk_node(B, R.bip32.PrvKeyNode, key=key, chain_code=cc, depth=depth, index=index, testnet=testnet,
-                  parent=parent, parent_fingerprint=ppf, children=children)
+                  parent=parent, parent_fingerprint=ppf, children=children, parsed_version=pv)
     return ref, NS(ref=ref, k=k, key=key, cc=cc, depth=depth, index=index, testnet=testnet, parent=parent,
                    parent_k=pk, ppf=ppf, children=children, keyform=form, private=True)
 
@@ -117,8 +168,9 @@ def sym_pub_node(B, tag="self", with_parent=True, depth_hi=256):
         elif c == 2:
             ppf = B.bytes(f"{tag}_ppf", 4)
     children = B.list_sym(f"{tag}_children")
+    pv = sym_parsed_version(B, tag)
     ref = mk_node(B, R.bip32.PubKeyNode, key=key, chain_code=cc, depth=depth, index=index, testnet=testnet,
-                  parent=parent, parent_fingerprint=ppf, children=children)
+                  parent=parent, parent_fingerprint=ppf, children=children, parsed_version=pv)
     return ref, NS(ref=ref, k=None, key=key, pt=pt, cc=cc, depth=depth, index=index, testnet=testnet,
                    parent=parent, ppf=ppf, children=children, private=False)
 
